@@ -96,6 +96,31 @@ FValid(c) ==
   /\ (c.rule = "exact" => (IF c.elem \in {"P2", "TH"} THEN FRank(c.term) < 2 \/ Tdim(c.cell) <= 2 ELSE TRUE))
 ValidFCases == {c \in FCase : FValid(c)}
 
+---------------------------------------------------------------------------
+(* expressions evaluated at reference points (C04) *)
+ETerms == {"u", "gradu", "fgradu", "symgrad", "x", "n", "f", "gradf", "cgradf", "hessf", "absf", "fu", "outer"}
+ERank(t) == IF t \in {"u", "gradu", "fgradu", "symgrad", "fu"} THEN 1 ELSE 0
+EElems == {"P1", "P2", "DG1", "vP1", "vP2", "N1", "RT1", "symP1", "TH"}
+ECase == [cell : Cells, elem : EElems, term : ETerms, pts : {"cell", "facet", "interp"}, geom : {"affine", "nonaffine", "manifold"}]
+EValid(c) ==
+  /\ (c.elem \in {"N1", "RT1", "TH"} => c.cell \in {"triangle", "tetrahedron"} /\ c.term \in {"u", "f", "fu"})
+  /\ (c.term = "symgrad" => c.elem \in {"vP1", "vP2"})
+  /\ (c.term = "outer" => c.elem \in {"vP1"})
+  /\ (c.term \in {"fgradu", "cgradf", "hessf", "absf"} => c.elem \in {"P1", "P2", "DG1"})
+  /\ (c.term = "hessf" => c.elem = "P2" /\ c.geom = "affine")
+  /\ (c.term = "n" <=> c.pts = "facet")
+  /\ (c.term = "n" => c.elem = "P1")
+  /\ (c.pts = "facet" => c.cell # "interval")
+  /\ (c.elem = "symP1" => Tdim(c.cell) = 2 /\ c.term \in {"u", "f"})
+  /\ (c.geom = "nonaffine" => c.cell \in {"quadrilateral", "hexahedron"} /\ ~(c.elem \in {"N1", "RT1"}))
+  /\ (c.geom = "manifold" => c.cell \in {"interval", "triangle"} /\ c.elem \in {"P1", "P2", "vP1"} /\ c.pts # "facet"
+                              /\ c.term \notin {"hessf", "symgrad", "outer"})
+  /\ (Tdim(c.cell) = 3 => c.elem \in {"P1", "vP1", "N1", "DG1"})
+  /\ (c.pts = "interp" => c.cell \in {"triangle", "quadrilateral", "interval"})
+ValidECases == {c \in ECase : EValid(c)}
+
+ASSUME PrintT(<<"NECASES", Cardinality(ValidECases)>>)
+ASSUME \A c \in ValidECases : PrintT(<<"ECASE", c>>)
 ASSUME PrintT(<<"NFCASES", Cardinality(ValidFCases)>>)
 ASSUME \A c \in ValidFCases : PrintT(<<"FCASE", c>>)
 ASSUME PrintT(<<"NCASES", Cardinality(ValidCases)>>)
